@@ -10,7 +10,7 @@ claimed = {
  "C11": dict(text="Proof, both directions: parsePacketHeader, parsePCR, parsePacketAdaptationField, payloadOffset and parsePacket are verified field by field against the ISO 13818-1 2.4.3.2-5 bit layout for every input byte string (all flag combinations, all lengths), including payload extent/content and that only byte 0 and the last 187 bytes are read; an adaptation field of length 0 is marked as the one-byte form so that WritePacket re-emits the packet unchanged (genuine defect found by parsePacketAdaptationField#post#onebyte and fixed), and the parsed field has exactly the layout size it was read with (clause relen: afBytes(a) == 1 + adaptation_field_length when the extension, if present, is non-empty), so the re-emitted packet has the same shape. Write side: writePacketHeader/writePCR/writePacketAdaptationField emit the reference bytes (length, flags, PCR/OPCR, splice countdown, private data, extension, stuffing) and writePacket pads to exactly the target size.",
              note="Trusted: generator, go/ssa, solvers; fmt.Errorf model; PacketSkipper callback assumed pure. astikit.BytesIterator methods are verified from source, not assumed.",
              ref="DESIGN.md 5 (C11)"),
- "C12": dict(text="Proof, both directions: parse side - every PES header field, PTS/DTS/ESCR bit layout, optional-header offsets, extension fields, data start/end rule and payload extent for all inputs against ISO 13818-1 2.4.3.6-7; write side - writePTSOrDTS/writeESCR/writeDSMTrickMode/writePESOptionalHeader/writePESHeader/writePESData emit the reference bytes at the offsets given by the same layout functions (all flag combinations of the optional header, by exhaustive case analysis over 128 cases), calcPESOptionalHeaderLength and calcPESDataLength agree with what is written, PES_packet_length is exact; lemma ts33RoundTrip: decode(encode(ts)) == ts for every 33-bit timestamp; ClockReference.Duration proved overflow-free for 33-bit base / 9-bit extension.",
+ "C12": dict(text="Proof, both directions: parse side - every PES header field, PTS/DTS/ESCR bit layout, optional-header offsets, extension fields, data start/end rule and payload extent for all inputs against ISO 13818-1 2.4.3.6-7; write side - writePTSOrDTS/writeESCR/writeDSMTrickMode/writePESOptionalHeader/writePESHeader/writePESData emit the reference bytes at the offsets given by the same layout functions (all flag combinations of the optional header, by exhaustive case analysis over 128 cases), calcPESOptionalHeaderLength and calcPESDataLength agree with what is written, PES_packet_length is exact; a parsed optional header without CRC and pack fields has exactly the layout size it was read with (clause relen: ohEnd(h) == bytes consumed), so it is re-emitted with the same length; lemma ts33RoundTrip: decode(encode(ts)) == ts for every 33-bit timestamp; ClockReference.Duration proved overflow-free for 33-bit base / 9-bit extension.",
              note="Trusted: generator, go/ssa, solvers; fmt.Errorf model. Genuine defect found by this check (CRC high byte) is fixed in /repo (see known_findings.json).",
              ref="DESIGN.md 5 (C12)"),
 }
